@@ -2,6 +2,7 @@
 
 Correspondence: the canonical dump of every returned model vs the Lean model's result.
 Oracle: a structural walk of input vs returned object (`embeds`) that does not use the model."""
+import copy
 import random
 
 from statham.schema.constants import NotPassed
@@ -166,9 +167,12 @@ def check_case(drv, schema, values, out, stats):
         real = obs["reals"][i]
         if real["r"] != "ok":
             continue
+        if real.get("input_altered"):
+            out.failures.append({"case": {"schema": schema, "value": obs["enc_args"][i]}, "what": "the call altered the value it was given", "finding": None})
+            continue
         # call again to get the object itself (the canonical dump has no attributes)
         try:
-            res = el(v)
+            res = el(copy.deepcopy(v))
         except Exception:  # noqa: BLE001
             continue
         problems, regions = [], set()
@@ -212,9 +216,15 @@ def check_dsl(drv, dump, values, out, stats):
         agree = model["r"] == "crash" or model == real
         if not agree and real["r"] in ("ok", "reject"):
             out.disagreements.append({"what": "call result (DSL tree)", "impl": real, "model": model, "element": dump, "value": enc})
+        if real.get("input_altered"):
+            out.failures.append({"case": {"element": dump, "value": v}, "what": "the call altered the value it was given", "finding": None})
+            continue
         if real["r"] != "ok":
             continue
-        res = el(v)
+        try:
+            res = el(copy.deepcopy(v))
+        except Exception:  # noqa: BLE001
+            continue
         problems, regions = [], set()
         embeds(v, res, "$", problems, regions, el)
         out.note_case({"element": dump, "value": enc}, isinstance(v, (dict, list)) and len(v) > 0)
@@ -225,6 +235,46 @@ def check_dsl(drv, dump, values, out, stats):
                 fid = None
             out.failures.append({"case": {"element": dump, "value": v}, "what": problems[0], "finding": fid})
             stats["embed-fail-" + str(fid)] = stats.get("embed-fail-" + str(fid), 0) + 1
+
+
+def check_inherited(rng, i, out, stats):
+    from statham.schema.elements import Integer, Number, String
+    from statham.schema.elements.meta import ObjectClassDict, ObjectMeta
+    from statham.schema.property import Property
+    pd = ObjectClassDict()
+    pd["id"] = Property(Integer(), required=True)
+    parent = ObjectMeta("Record", (Object,), pd)
+    cd = ObjectClassDict()
+    cd["amount"] = Property(Number())
+    cd["class_"] = Property(String(), source="class")
+    cd["note"] = Property(String(default="n/a"))
+    child = ObjectMeta("Invoice", (parent,), cd, **({"additionalProperties": False} if i % 3 == 0 else {}))
+    order = ["parent-first", "child-first"][i % 2]
+    pvals = [{"id": 1}, {"id": 2, "other": "x"}]
+    cvals = [{"id": 1, "amount": 3, "class": "k"}, {"id": 2, "amount": 2.5}, {"id": 3, "class": "q", "note": "given"}, {"id": 4}]
+    plan = [(parent, pvals), (child, cvals)] if order == "parent-first" else [(child, cvals), (parent, pvals)]
+    for cls, vals in plan:
+        for v in vals:
+            case = {"inherited": {"order": order, "class": cls.__name__, "closed": i % 3 == 0}, "value": v}
+            out.note_case(case, True)
+            try:
+                res = cls(copy.deepcopy(v))
+            except Exception:  # noqa: BLE001
+                stats["inherited-rejected"] = stats.get("inherited-rejected", 0) + 1
+                if not (i % 3 == 0 and cls is child and set(v) - {"id", "amount", "class", "note"}):
+                    out.failures.append({"case": case, "what": f"{cls.__name__} rejects {v!r}", "finding": None})
+                continue
+            problems, regions = [], set()
+            embeds(v, res, "$", problems, regions, cls)
+            for name, prop in cls.properties.items():
+                src = prop.source or name
+                if src not in v and not isinstance(getattr(prop.element, "default", NotPassed()), NotPassed):
+                    if isinstance(getattr(res, name, NotPassed()), NotPassed):
+                        problems.append(f"$.{name}: the declared default is missing")
+            stats["inherited-accepted"] = stats.get("inherited-accepted", 0) + 1
+            if problems:
+                out.failures.append({"case": case, "what": problems[0], "finding": None})
+                return
 
 
 def run(ctx, scale=1.0):
@@ -267,6 +317,9 @@ def run(ctx, scale=1.0):
         for i in range(int(n / 3)):
             dump = dg.dump(3)
             check_dsl(drv, dump, vg.values(dump_to_schema(dump), 8), out, stats)
+        # model classes that inherit from a model class: the parent is used first, then the child (and the other way round)
+        for i in range(int((10 if ctx["tier"] == "quick" else 200) * scale)):
+            check_inherited(rng, i, out, stats)
     finally:
         drv.close()
     out.stats = stats
@@ -310,4 +363,10 @@ def replay(payload):
     case = payload.get("failure", {}).get("case")
     if not case:
         return True
+    if "inherited" in case:
+        inh = case["inherited"]
+        i = next(i for i in range(6) if ["parent-first", "child-first"][i % 2] == inh["order"] and (i % 3 == 0) == inh["closed"])
+        out, stats = Outcome(), {}
+        check_inherited(random.Random(0), i, out, stats)
+        return not out.failures
     return not _fails(case.get("schema"), case["value"], case.get("element"))
